@@ -37,6 +37,12 @@ CHECKS = {
     'C10': ('fault_enumeration', 'runtime monitoring: model SAD (decoded from the real netlink request bytes) compared with the tracked CHILD_SAs after every real main_loop iteration, under a kernel refusal injected at every request index',
             'For ~30 scripted histories (all negotiation paths, collisions, refused negotiations, INVALID_KE retries, timeouts) a kernel error is injected at each individual netlink request of each endpoint, one run per index; after every event the model SAD must equal the tracked set, an IKE rekey must not touch the kernel and no un-injected EEXIST/ESRCH may occur. Random lossless/lossy walks add unscripted histories.',
             'fake kernel semantics (EEXIST/ESRCH like Linux, injected refusal = nothing applied); tracked set read from the controller between iterations', '2/C10'),
+    'C11': ('exploration', 'runtime differential monitoring of proposal selection against an independent reference: exhaustive small universe at function level, wire-shadow comparison end to end, and tampered responses from an independent responder with valid AUTH',
+            'All 624 x 624 ordered sub-list pairs over two identifiers per transform type (thorough; a tenth in quick) for matching and mismatching protocols plus foreign identifiers: Proposal.intersection / is_subset / first-acceptable-proposal selection must equal the reference. End to end over random configuration pairs the suite in every IKE_SA_INIT, IKE_AUTH and CREATE_CHILD_SA response (opened by the wire shadow) must equal the reference selection from the responder\'s order and the initiator\'s offer; KE group == chosen DH; INVALID_KE_PAYLOAD names the chosen group; NO_PROPOSAL_CHOSEN and nothing installed when nothing is common. 24 tampered IKE / CHILD proposals and bogus INVALID_KE_PAYLOAD suggestions from an independent, correctly authenticated responder must be refused.',
+            'where a response merely omits a type of the offer either outcome is accepted', '2/C11'),
+    'C12': ('exploration', 'runtime monitoring of traffic-selector handling against explicit packet-set semantics: exhaustive small universe for containment, random networks for the conversions, independent initiator / responder (valid AUTH) for narrowing, refusal, widened responses and mode',
+            'All 3 x 32 400 ordered selector pairs over a 4-address x 3-port x 3-protocol universe are compared with inclusion of the explicit 36-packet sets; network/port conversions round-trip for all prefix lengths; an independent initiator sends 1-3-element TSi/TSr lists against 1- and 3-entry policies (installed selectors must lie inside a proposed selector and inside the policy, kernel selectors inside the policy networks, requests matching nothing or asking the other mode get exactly TS_UNACCEPTABLE and install nothing); an independent responder answers with selectors widened per field and per side, swapped, or with the other mode (nothing may be installed); CHILD rekeys keep the selectors.',
+            'well-formed selectors only; partial overlaps may be refused or narrowed', '2/C12'),
     'C13': ('fault_enumeration', 'runtime monitoring under a virtual clock: retransmission / DPD / lifetime / give-up monitors fed with every real main_loop iteration, over every subset of lost transmissions, tick sequences and a partition injected after every micro-step',
             'Every request kind on both roles x all 16 subsets of lost transmissions x four tick sequences; the same after COOKIE / INVALID_KE_PAYLOAD retries; a partition after every micro-step of ten scripted histories (both sides must empty their SAD within dpd + 20 s + 3 ticks); idle pairs run to twice the lifetime; a peer answering every rekey with TEMPORARY_FAILURE. Monitors: byte-identical retransmissions, never before the deadline, non-decreasing gaps, budget respected and used, nothing re-sent after its response, nothing waiting > 45 s, SAD == tracked set at every step, DPD probe timing, rekey start window, DELETE 30 s after a rekey that keeps failing.',
             'virtual time; deadlines read from the IKE_SA between iterations; one tick = one loop iteration per endpoint', '2/C13'),
